@@ -254,6 +254,9 @@ func (fx *FuncCtx) evalUnary(st *State, x *ast.UnaryExpr) Val {
 }
 
 func (fx *FuncCtx) fneg(v Term, s Sort) Term {
+	if fx.real {
+		return app(s, "-", v)
+	}
 	if fx.ieee {
 		return app(s, "fp.neg", v)
 	}
@@ -641,11 +644,17 @@ func (fx *FuncCtx) floatOp(op token.Token, a, b Term, s Sort, node ast.Node) Val
 		sfx = "32"
 	}
 	arith := func(n string) Term {
+		if fx.real {
+			return app(s, map[string]string{"fadd": "+", "fsub": "-", "fmul": "*", "fdiv": "/"}[n], a, b)
+		}
 		fn := n + sfx
 		fx.declFun(fn, []Sort{s, s}, s)
 		return app(s, fn, a, b)
 	}
 	cmp := func(ie, op string, x, y Term) Term {
+		if fx.real {
+			return app(SBool, map[string]string{"fp.eq": "=", "fp.lt": "<", "fp.leq": "<="}[ie], x, y)
+		}
 		if fx.ieee {
 			return app(SBool, ie, x, y)
 		}
